@@ -211,14 +211,32 @@ fn spread_over_directories(rng: &mut Rng, sc: &mut Scenario, meta: &mut BTreeMap
     for (p, mut r) in old {
         let name = p.trim_end_matches(".do").to_string();
         let (tpath, rpath, dir) = place[&name].clone();
+        // one script in four changes its directory before it asks for anything
+        let first_req = r
+            .stmts
+            .iter()
+            .position(|st| matches!(st, Stmt::IfChange(_) | Stmt::Redo(_)));
+        let (from, chdir) = match first_req {
+            Some(at) if rng.chance(1, 4) => {
+                if dir.is_empty() {
+                    ("sub".to_string(), Some((at, "sub".to_string())))
+                } else {
+                    (String::new(), Some((at, "..".to_string())))
+                }
+            }
+            _ => (dir.clone(), None),
+        };
         for st in r.stmts.iter_mut() {
             if let Stmt::IfChange(v) | Stmt::Redo(v) = st {
                 for x in v.iter_mut() {
                     if let Some((tp, _, _)) = place.get(x.as_str()) {
-                        *x = rel(&dir, tp);
+                        *x = rel(&from, tp);
                     }
                 }
             }
+        }
+        if let Some((at, to)) = chdir {
+            r.stmts.insert(at, Stmt::Chdir(to));
         }
         rule_of.insert(tpath.clone(), serde_json::json!(rpath));
         tags.insert(tpath, serde_json::json!(name));
